@@ -4,8 +4,8 @@
 
 use super::meta::Metadata;
 use crate::{
-    checksum::ChecksummedWriter, time::unix_timestamp, vlog::BlobFileId, Checksum, CompressionType,
-    KeyRange, SeqNo, TreeId, UserKey,
+    checksum::ChecksummedWriter, file::fsync_directory, time::unix_timestamp, vlog::BlobFileId,
+    Checksum, CompressionType, KeyRange, SeqNo, TreeId, UserKey,
 };
 use byteorder::{LittleEndian, WriteBytesExt};
 use std::{
@@ -250,6 +250,14 @@ impl Writer {
         let mut checksum = self.writer.into_inner()?;
         checksum.inner_mut().get_mut().sync_all()?;
         let checksum = checksum.checksum();
+
+        // IMPORTANT: fsync folder on Unix
+
+        #[expect(
+            clippy::expect_used,
+            reason = "if there's no parent folder, something has gone horribly wrong"
+        )]
+        fsync_directory(self.path.parent().expect("should have folder"))?;
 
         Ok((metadata, checksum))
     }
